@@ -25,7 +25,9 @@ pub const CTX_COL: i32 = 3;
 
 pub fn sheets() -> Vec<String> { vec!["Sheet1".to_string(), "Second Sheet".to_string(), "Third".to_string()] }
 pub fn defined_names() -> Vec<(String, Option<u32>, String)> {
-    vec![("MyName".to_string(), None, "Sheet1!$A$1".to_string()), ("local_n".to_string(), Some(0), "Sheet1!$B$2:$B$3".to_string())]
+    vec![("MyName".to_string(), None, "Sheet1!$A$1".to_string()), ("local_n".to_string(), Some(0), "Sheet1!$B$2:$B$3".to_string()),
+         // names that start like an R1C1 / A1 reference
+         ("R2C2_sum".to_string(), None, "Sheet1!$B$1".to_string()), ("RC_loc".to_string(), Some(0), "Sheet1!$B$2".to_string()), ("A1_name".to_string(), None, "Sheet1!$B$3".to_string())]
 }
 /// the formula's cell: (CTX_ROW, CTX_COL) except while the boundary ranges are generated
 static CUR_ROW: std::sync::atomic::AtomicI32 = std::sync::atomic::AtomicI32::new(CTX_ROW);
